@@ -1,8 +1,117 @@
 import XmppModel.Prelude.Hex
-/-! Driver module for C03: `handle args` answers one protocol line (fields after the
-property id); `none` means the line is not understood (`!bad-op`). -/
+import XmppModel.Model.Sasl
+/-! Driver module for C03 (line protocol: see harness/c03/c03.go). -/
 namespace XmppModel.Driver.C03
+open XmppModel XmppModel.Sasl
 
-def handle (_args : List String) : Option String := none
+def parsePayload (s : String) : Option Payload :=
+  if s == "-" then some .empty
+  else if s == "eq" then some .eq
+  else if s == "sh" then some .short
+  else if s == "bad" then some .bad
+  else if s.startsWith "v" then
+    match hexDecode (s.drop 1).toString with
+    | some [] => none
+    | some b => some (.valid b)
+    | none => none
+  else none
+
+/-- `-` or `v<hex>` -/
+def parseBytes (s : String) : Option Bytes :=
+  if s == "-" then some []
+  else if s.startsWith "v" then
+    match hexDecode (s.drop 1).toString with
+    | some [] => none
+    | r => r
+  else none
+
+def showBytes (b : Bytes) : String := if b.isEmpty then "-" else "v" ++ hexEncode b
+
+/-- responses and challenges are written as `=` when empty -/
+def showEq (b : Bytes) : String := if b.isEmpty then "eq" else "v" ++ hexEncode b
+
+def parseStep (s : String) : Option StepRes :=
+  if s == "a" then some { kind := .authnErr }
+  else if s == "e" then some { kind := .otherErr }
+  else if s.startsWith "m" then (parseBytes (s.drop 1).toString).map fun b => { kind := .more, resp := b }
+  else if s.startsWith "d" then (parseBytes (s.drop 1).toString).map fun b => { kind := .done, resp := b }
+  else none
+
+/-- the scripted mechanism: the k-th `Step` of a negotiator returns the k-th entry; past the
+end of the script it fails (documented in the harness) -/
+def scriptMech (script : List StepRes) (offset : Nat) : Mech := fun hist =>
+  match script[hist.length - offset]? with
+  | some r => r
+  | none => { kind := .otherErr }
+
+def parseCEv (s : String) : Option CEv :=
+  if s == "f" then some .failure
+  else if s == "o" then some .other
+  else if s == "n" then some .otherNs
+  else if s == "w" then some .space
+  else if s.startsWith "c" then (parsePayload (s.drop 1).toString).map .challenge
+  else if s.startsWith "s" then (parsePayload (s.drop 1).toString).map .success
+  else none
+
+def parseSEv (s : String) : Option SEv :=
+  if s == "B" then some .abort
+  else if s == "F" then some .failure
+  else if s == "O" then some .other
+  else if s == "N" then some .otherNs
+  else if s == "W" then some .space
+  else if s.startsWith "A" then
+    match ((s.drop 1).toString).splitOn "/" with
+    | [m, p] => (parsePayload p).map (.auth m)
+    | _ => none
+  else if s.startsWith "R" then (parsePayload (s.drop 1).toString).map .response
+  else none
+
+def showCSent : CSent → String
+  | .auth m r => s!"auth/{m}/{showEq r}"
+  | .response r => s!"resp/{showEq r}"
+
+def showSSent : SSent → String
+  | .challenge r => s!"chal/{showEq r}"
+  | .success r => s!"succ/{showBytes r}"
+  | .failure c => s!"fail/{c}"
+
+def showPerm (p : PermCall) : String :=
+  s!"{hexEncode p.user}/{hexEncode p.pass}/{hexEncode p.ident}={showBool p.verdict}"
+
+def parsePerm (s : String) : Option (Bytes → Bytes → Bytes → Bool) :=
+  if s == "none" then some fun _ _ _ => false
+  else if s == "any" then some fun _ _ _ => true
+  else match s.splitOn "/" with
+    | [u, p] => do
+      let u ← hexDecode u; let p ← hexDecode p
+      pure fun user pass _ => user == u && pass == p
+    | _ => none
+
+def handle (args : List String) : Option String :=
+  match args with
+  | ["cli", cm, adv, steps, peer] => do
+    let script ← mapM? parseStep (splitList steps)
+    let evs ← mapM? parseCEv (splitList peer)
+    let mechs := (splitList cm).map fun n => (n, scriptMech script 0)
+    let r := clientNeg mechs (splitList adv) evs
+    pure s!"{showBool r.authn} {r.err.toString} {r.used.getD "-"} {joinList (r.sent.map showCSent)} {joinList (r.hist.map showBytes)}"
+  | ["srv", sm, steps, perm, peer] => do
+    let script ← mapM? parseStep (splitList steps)
+    let evs ← mapM? parseSEv (splitList peer)
+    let pf ← parsePerm perm
+    let mechs := (splitList sm).map fun n =>
+      if n == "PLAIN" then (n, plainServer pf) else (n, scriptMech script 1)
+    let r := serverSession mechs evs
+    pure s!"{showBool r.authn} {r.err.toString} {joinList (r.sent.map showSSent)} {joinList (r.perms.map showPerm)}"
+  | ["srvw", n, sm, steps, perm, peer] => do
+    let budget ← n.toNat?
+    let script ← mapM? parseStep (splitList steps)
+    let evs ← mapM? parseSEv (splitList peer)
+    let pf ← parsePerm perm
+    let mechs := (splitList sm).map fun n =>
+      if n == "PLAIN" then (n, plainServer pf) else (n, scriptMech script 1)
+    let r := serverSessionW mechs budget evs
+    pure s!"{showBool r.authn} {r.err.toString} {joinList (r.sent.map showSSent)} {joinList (r.perms.map showPerm)}"
+  | _ => none
 
 end XmppModel.Driver.C03
